@@ -712,9 +712,9 @@ impl Monitor for M {
             Phase::new("enum", enum_total())
                 .batch(128)
                 .exhaustive("every single pattern of 1-3 letters over {a,b}, levels {0,1,2,7} in every gap, every anchor combination, alone and with the exception a-b/ab-a, on every word of length <=7 over {a,b}, lower and upper case"),
-            Phase::new("sets", tier.pick(5_000, 120_000)).batch(8),
-            Phase::new("long", tier.pick(10_000, 200_000)).batch(32),
-            Phase::new("plain", tier.pick(4_000, 50_000)).batch(16),
+            Phase::new("sets", tier.pick(5_000, 240_000)).batch(8),
+            Phase::new("long", tier.pick(10_000, 400_000)).batch(32),
+            Phase::new("plain", tier.pick(4_000, 100_000)).batch(16),
         ]
     }
 
